@@ -232,6 +232,31 @@ def fork_env(env):
     return {k: cp(v) for k, v in env.items()}
 
 
+def _lead_dim(v):
+    """leading dimension of an array-valued form when it is a literal: k*randn(4, N) -> 4"""
+    if not isinstance(v, Form) or len(v.terms) != 1:
+        return None
+    dims = set()
+    for mono in v.terms:
+        for a, _e in mono:
+            if a[0] == "fn" and a[1].split(".")[-1] in ("randn", "rand", "zeros", "ones", "empty", "standard_normal", "normal"):
+                shp = None
+                if a[1].split(".")[-1] in ("randn", "rand") and len(a[2]) >= 2:
+                    shp = a[2][0]
+                elif a[2] and isinstance(a[2][-1], TupleV) and len(a[2][-1].items) >= 2:
+                    shp = a[2][-1].items[0]
+                elif isinstance(dict(a[3]).get("size"), TupleV):
+                    shp = dict(a[3])["size"].items[0]
+                q = shp.rational() if isinstance(shp, Form) else None
+                if q is not None and q.denominator == 1:
+                    dims.add(int(q))
+    return dims.pop() if len(dims) == 1 else None
+
+
+def _is_static(node):
+    return any(isinstance(d, ast.Name) and d.id == "staticmethod" for d in getattr(node, "decorator_list", []))
+
+
 _OPERATOR_EXPR = {
     "add": "_op0 + _op1", "sub": "_op0 - _op1", "mul": "_op0 * _op1", "truediv": "_op0 / _op1", "floordiv": "_op0 // _op1", "mod": "_op0 % _op1",
     "pow": "_op0 ** _op1", "matmul": "_op0 @ _op1", "and_": "_op0 & _op1", "or_": "_op0 | _op1", "xor": "_op0 ^ _op1", "lshift": "_op0 << _op1",
@@ -256,6 +281,7 @@ class Interp:
         self.cmp_points: set = set()               # numeric values met in decided order/equality comparisons
         self.fit_log: list = []                    # (call node, args, kwargs, depth) of every estimator.fit(...) met, in order
         self.views: dict = {}                      # (function, local name) -> (viewed Name node, start, stop): v = a[lo:hi]
+        self.aliases: dict = {}                    # (function, local name) -> Attribute node `obj.attr` the local is another name of
         self._gbusy: set = set()
         self.keep_astype = False                   # keep x.astype(t) visible in value forms instead of treating it as the identity
         self.unroll_literal_loops = True           # execute `for row in <literal table>` row by row instead of abstracting the loop
@@ -337,7 +363,7 @@ class Interp:
         names = [x.arg for x in a.posonlyargs + a.args]
         defaults = [None] * (len(names) - len(a.defaults)) + list(a.defaults)
         argv = list(args)
-        if bound_self is not None:
+        if bound_self is not None and not _is_static(node):
             argv = [bound_self] + argv
         used_kw = set()
         for i, nm in enumerate(names):
@@ -501,6 +527,13 @@ class Interp:
         if isinstance(t, ast.Name):
             self.views.pop((id(fi), t.id), None)
             val_node = getattr(stmt, "value", None)
+            if aug and (id(fi), t.id) in self.aliases and isinstance(v, Form):
+                self._write_through(self.aliases[(id(fi), t.id)], v, st, fi, depth, stmt)     # `alias *= k` works in place on the array
+            else:
+                self.aliases.pop((id(fi), t.id), None)
+                if isinstance(stmt, ast.Assign) and len(stmt.targets) == 1 and stmt.targets[0] is t and isinstance(val_node, ast.Attribute) and isinstance(v, Form) \
+                        and v.const_value() is None:
+                    self.aliases[(id(fi), t.id)] = val_node        # `a = obj.field`: the same array under another name
             if isinstance(stmt, ast.Assign) and len(stmt.targets) == 1 and stmt.targets[0] is t and isinstance(val_node, ast.Subscript) \
                     and isinstance(val_node.value, ast.Name) and isinstance(val_node.slice, ast.Slice) and val_node.slice.step is None \
                     and isinstance(st.env.get(val_node.value.id), Form):
@@ -512,6 +545,17 @@ class Interp:
             st.env[t.id] = v
             if depth == 0 or True:
                 self.assign_log.append((fi, stmt, t.id, v, list(st.conds), depth))
+        elif isinstance(t, (ast.Tuple, ast.List)) and sum(isinstance(e_, ast.Starred) for e_ in t.elts) == 1 and isinstance(v, (TupleV, VecV)) \
+                and len(v.items) >= len(t.elts) - 1:
+            # a, *rest, z = seq
+            k_ = next(i for i, e_ in enumerate(t.elts) if isinstance(e_, ast.Starred))
+            tail = len(t.elts) - k_ - 1
+            items = list(v.items)
+            for tt, vv in zip(t.elts[:k_], items[:k_]):
+                self.assign(tt, vv, st, fi, depth, stmt)
+            self.assign(t.elts[k_].value, TupleV(items[k_:len(items) - tail], "list"), st, fi, depth, stmt)
+            for tt, vv in zip(t.elts[k_ + 1:], items[len(items) - tail:] if tail else []):
+                self.assign(tt, vv, st, fi, depth, stmt)
         elif isinstance(t, (ast.Tuple, ast.List)):
             items = self._unpack(v, len(t.elts))
             for tt, vv in zip(t.elts, items):
@@ -544,6 +588,8 @@ class Interp:
             elif isinstance(t.value, ast.Name):
                 # element store into an array local: the local now holds a modified array
                 st.env[t.value.id] = Form.atom(("fn", "setitem", (as_value(base), idx, v), ()))
+                if (id(fi), t.value.id) in self.aliases:
+                    self._write_through(self.aliases[(id(fi), t.value.id)], st.env[t.value.id], st, fi, depth, stmt)
             elif isinstance(t.value, ast.Attribute):
                 owner = self.eval(t.value.value, st, fi, depth)
                 if isinstance(owner, ObjV):
@@ -551,9 +597,28 @@ class Interp:
         elif isinstance(t, ast.Starred):
             self.assign(t.value, v, st, fi, depth, stmt)
 
+    def _write_through(self, origin, newval, st, fi, depth, stmt):
+        """the local is another name of the array held in `obj.attr`: an in-place change of one is a change of the other"""
+        try:
+            owner = self.eval(origin.value, st, fi, depth)
+        except Exception:
+            return
+        if isinstance(owner, ObjV):
+            self.store_log.append((fi, stmt, ("attr", owner, origin.attr), newval, list(st.conds), depth))
+            owner.fields[origin.attr] = newval
+
     def _unpack(self, v, n):
         if isinstance(v, (TupleV, VecV)) and len(v.items) == n:
             return v.items
+        if isinstance(v, Form):
+            a = v.single_atom()
+            if a is not None and a[0] == "fn" and a[1] in ("split", "array_split") and len(a[2]) == 2 and isinstance(a[2][1], Form) and a[2][1].rational() == n \
+                    and dict(a[3]).get("axis") is None:
+                # np.split(X, n) into equal parts along the first axis: X[0:k], X[k:2k], ... when the leading dimension is known
+                lead = _lead_dim(a[2][0])
+                if lead is not None and lead % n == 0:
+                    k = lead // n
+                    return [mk_idx(a[2][0], SliceV(NONE if i == 0 else Form.num(i * k), NONE if i == n - 1 else Form.num((i + 1) * k), NONE)) for i in range(n)]
         if isinstance(v, Form):
             a = v.single_atom()
             # np.array([a,b]) - 1 style: elementwise arithmetic over a literal list is kept elementwise
@@ -842,10 +907,15 @@ class Interp:
         marks = self._log_marks()
         cur = State(fork_env(st.env), st.facts.copy(), list(st.conds))
         broke = None
+        elts = s.iter.elts if isinstance(s.iter, (ast.Tuple, ast.List)) and len(s.iter.elts) == len(it.items) and not any(isinstance(e, ast.Starred) for e in s.iter.elts) else None
+        k_ = 0
         for item in it.items:
             if not cur.live:
                 break
             self.assign(s.target, item, cur, fi, depth, s)
+            if elts is not None and isinstance(s.target, ast.Name) and isinstance(elts[k_], ast.Attribute) and isinstance(item, Form) and item.const_value() is None:
+                self.aliases[(id(fi), s.target.id)] = elts[k_]     # for f in (obj.a, obj.b): f names the array itself
+            k_ += 1
             self._loop_stack_push(cur)
             self.exec_block(s.body, cur, fi, depth)
             exits = self._loop_stack_pop()
@@ -1020,6 +1090,26 @@ class Interp:
                 v = self.eval(test.args[0], st, fi, depth)
                 classes = self._class_names(test.args[1], st, fi, depth)
                 return self._isinstance(v, classes, st)
+            if fn in ("all", "any") and len(test.args) == 1 and not test.keywords and isinstance(test.args[0], (ast.GeneratorExp, ast.ListComp)) \
+                    and len(test.args[0].generators) == 1:
+                # all(p(x) for x in (a, b, c)) over a literal sequence: decided element by element (same short-circuit order)
+                g = test.args[0]
+                seq = self._literal_seq(self.eval(g.generators[0].iter, st, fi, depth))
+                if seq is not None:
+                    vals = []
+                    for item in seq:
+                        s2 = State(dict(st.env), st.facts, st.conds)
+                        self.assign(g.generators[0].target, item, s2, fi, depth, test)
+                        keep = [self.truth(c_, s2, fi, depth) for c_ in g.generators[0].ifs]
+                        if any(k_ is None for k_ in keep):
+                            vals.append(None)
+                            continue
+                        if not all(keep):
+                            continue
+                        vals.append(self.truth(g.elt, s2, fi, depth))
+                    if fn == "all":
+                        return False if any(v_ is False for v_ in vals) else (True if all(v_ is True for v_ in vals) else None)
+                    return True if any(v_ is True for v_ in vals) else (False if all(v_ is False for v_ in vals) else None)
             if fn == "callable" and len(test.args) == 1:
                 v = self.eval(test.args[0], st, fi, depth)
                 if isinstance(v, FuncV):
@@ -1029,6 +1119,20 @@ class Interp:
                 return None
         v = self.eval(test, st, fi, depth)
         return self._truthy(v, st)
+
+    def _literal_seq(self, it):
+        """the items of a literal sequence value (tuple/list display, short constant range), else None"""
+        if isinstance(it, (TupleV, VecV)) and len(it.items) <= 32:
+            return list(it.items)
+        if isinstance(it, Form):
+            a = it.single_atom()
+            if a is not None and a[0] == "fn" and a[1] == "range" and 1 <= len(a[2]) <= 3 and not a[3]:
+                qs = [x.rational() if isinstance(x, Form) else None for x in a[2]]
+                if all(q is not None and q.denominator == 1 for q in qs):
+                    r_ = range(*[int(q) for q in qs])
+                    if len(r_) <= 32:
+                        return [Form.num(i) for i in r_]
+        return None
 
     def _concrete(self, v, st):
         if isinstance(v, Form):
@@ -1126,6 +1230,21 @@ class Interp:
                 return False  # arithmetic result
             if a[0] in ("fn",) and a[1] not in ("get", "getattr", "pop"):
                 return False
+            if a[0] == "phi" and a[2]:
+                alts = [self._is_none(x, st) for x in a[2]]
+                if all(t is False for t in alts):
+                    return False
+                if all(t is True for t in alts):
+                    return True
+                return None
+            if a[0] == "sym" and a[1].endswith(".signal"):
+                owner = a[1][:-len(".signal")]
+                if (owner == "self" and self.self_class in SIGNAL_CLASSES) or self.param_classes.get(owner) in SIGNAL_CLASSES:
+                    return False      # class invariant: the constructors store an ndarray in .signal (C01.4)
+            if a[0] == "idx" and isinstance(a[1], Form) and self._is_none(a[1], st) is False:
+                ba = a[1].single_atom()
+                if ba is not None and ba[0] == "sym" and ba[1].rsplit(".", 1)[-1] in ("signal", "noise", "data"):
+                    return False      # an element / slice of an array
             return None
         return None
 
@@ -1424,7 +1543,7 @@ class Interp:
                 return FuncV(m.funcs[q])
             if nm in m.globals and len(parts) == 3:
                 g = m.globals[nm]
-                if _literal_like(g) and (m.name, nm) not in self._gbusy:
+                if _literal_like(g, lambda f_: self.pkg.resolve_expr(m, None, f_)) and (m.name, nm) not in self._gbusy:
                     # module-level constants and lookup tables (numbers, strings, tuples, dicts of functions, arithmetic on them)
                     self._gbusy.add((m.name, nm))
                     try:
@@ -1634,10 +1753,15 @@ class Interp:
 
     def e_Compare(self, n, st, fi, depth):
         marks = self._log_marks()
+        walrus = any(isinstance(x, ast.NamedExpr) for x in ast.walk(n))
+        saved = dict(st.env) if walrus else None
         t = self.truth(n, st, fi, depth) if len(n.ops) == 1 else None
         if t is not None:
             return Const(t)
         self._log_rewind(marks)    # the operands are evaluated again below: keep one record per call
+        if saved is not None:      # ... and an assignment expression takes effect once
+            st.env.clear()
+            st.env.update(saved)
         left = self.eval(n.left, st, fi, depth)
         parts = []
         for op, c in zip(n.ops, n.comparators):
@@ -1779,10 +1903,11 @@ class Interp:
             iters.append(it)
             self.assign(g.target, iter_element(it), sub, fi, depth, n)
         # literal iteration: expand when the single iterable is a literal list/tuple
-        if len(n.generators) == 1 and isinstance(iters[0], TupleV) and len(iters[0].items) <= 32:
+        seq0 = self._literal_seq(iters[0]) if len(n.generators) == 1 else None
+        if seq0 is not None:
             outs = []
             decided = True
-            for item in iters[0].items:
+            for item in seq0:
                 s2 = State(dict(st.env), st.facts, st.conds)
                 self.assign(n.generators[0].target, item, s2, fi, depth, n)
                 keep = True
@@ -1836,7 +1961,52 @@ class Interp:
             return self.pkg.resolve_expr(fi.module, fi if isinstance(fi, FuncInfo) else None, func)
         return None
 
+    def _first_match(self, n, st, fi, depth):
+        """next((elt for target in TABLE if cond), default) over a literal table: the first row whose condition holds, as a chain
+        ifexp(c1, v1, ifexp(c2, v2, ... default)); None when the shape does not apply"""
+        g = n.args[0]
+        if not (isinstance(g, ast.GeneratorExp) and len(g.generators) == 1 and len(n.args) <= 2 and not n.keywords and not g.generators[0].is_async):
+            return None
+        gen = g.generators[0]
+        it = self.eval(gen.iter, st, fi, depth)
+        if not (isinstance(it, TupleV) and len(it.items) <= 32):
+            return None
+        default = self.eval(n.args[1], st, fi, depth) if len(n.args) == 2 else None
+        rows = []
+        for item in it.items:
+            s2 = State(dict(st.env), st.facts, st.conds)
+            self.assign(gen.target, item, s2, fi, depth, n)
+            conds, decided_false = [], False
+            for c_ in gen.ifs:
+                tv = self.truth(c_, s2, fi, depth)
+                if tv is False:
+                    decided_false = True
+                    break
+                if tv is None:
+                    conds.append(self.eval(c_, s2, fi, depth))
+            if decided_false:
+                continue
+            val = self.eval(g.elt, s2, fi, depth)
+            if not conds:
+                rows.append((None, val))
+                break                       # this row always matches: later rows are never reached
+            cf = conds[0] if len(conds) == 1 else mk_fn("and", [as_value(c_) for c_ in conds])
+            rows.append((cf, val))
+        if rows and rows[-1][0] is None:
+            out = rows.pop()[1]
+        elif default is not None:
+            out = default
+        else:
+            return None                      # StopIteration path: not modelled
+        for cf, val in reversed(rows):
+            out = mk_fn("ifexp", [as_value(cf), as_value(val), as_value(out)])
+        return out
+
     def e_Call(self, n, st, fi, depth):
+        if isinstance(n.func, ast.Name) and n.func.id == "next" and n.args and "next" not in st.env:
+            fm = self._first_match(n, st, fi, depth)
+            if fm is not None:
+                return fm
         args = []
         for a in n.args:
             if isinstance(a, ast.Starred):
@@ -1928,6 +2098,19 @@ class Interp:
                 q = f"{m.name}.{parts[2]}"
                 if q in m.funcs:
                     return self._call_func(m.funcs[q], args, kwargs, st, fi, depth, n, rec)
+                if parts[2] in m.globals and parts[2] != "gv":
+                    # a module-level alias of a callable: _log10 = np.log10, _pow10 = partial(operator.pow, 10), TABLE-free lambdas
+                    gvv = self._global_value(name, fi)
+                    ga = gvv.single_atom() if isinstance(gvv, Form) else None
+                    if isinstance(gvv, (FuncV, ClassRef)) or (ga is not None and ((ga[0] == "c" and ga[1] != name) or (ga[0] == "fn" and ga[1] in ("functools.partial", "operator.itemgetter")))):
+                        return self._call_value(gvv, args, kwargs, st, fi, depth, n, rec)
+            if m is not None and len(parts) == 4 and parts[2] in m.classes:
+                # Class.method(obj, ...): the plain function, nothing bound
+                meth = self.pkg.find_method(m.name, parts[2], parts[3])
+                if meth is not None:
+                    if _is_static(meth.node):
+                        return self._call_func(meth, args, kwargs, st, fi, depth, n, rec)
+                    return self._call_func(meth, args[1:], kwargs, st, fi, depth, n, rec, bound_self=args[0]) if args else None
             if m is not None and len(parts) == 4 and parts[2] in m.globals and parts[2] != "gv" and parts[2] not in m.classes:
                 # method of a module-level object (lookup table): TABLE.get(key), TABLE.items() ...
                 obj = self._global_value(".".join(parts[:3]), fi)
@@ -1949,6 +2132,17 @@ class Interp:
                     return VecV(v.items)
                 return mk_fn("array", [v])
             return v
+        if name == "functools.reduce" and 2 <= len(args) <= 3 and not kwargs and isinstance(args[1], TupleV) and (args[1].items or len(args) == 3):
+            items = list(args[1].items)
+            acc = args[2] if len(args) == 3 else items.pop(0)
+            for item in items:
+                acc = self._call_value(args[0], [acc, item], {}, st, fi, depth, n, CallRec(n, None, [], {}, [], fi, depth, st.facts))
+            return acc
+        if name == "itertools.pairwise" and len(args) == 1 and not kwargs and isinstance(args[0], TupleV):
+            its = args[0].items
+            return TupleV([TupleV([a_, b_], "tuple") for a_, b_ in zip(its, its[1:])], "list")
+        if name == "itertools.chain" and not kwargs and all(isinstance(a_, TupleV) for a_ in args):
+            return TupleV([x_ for a_ in args for x_ in a_.items], "list")
         if args and isinstance(args[0], VecV) and len(args) == 1 and not kwargs and (name.startswith("numpy.") or name.startswith("scipy.special.") or name.startswith("math.")) \
                 and name.split(".")[-1] in _ELEMENTWISE:
             sub = []
@@ -1996,6 +2190,13 @@ class Interp:
                 return self._construct(cls, args, kwargs, st, fi, depth, n)
             if a is not None and a[0] == "fn" and a[1] in ("vectorize", "numpy.vectorize") and a[2] and isinstance(a[2][0], FuncV):
                 return self._call_value(a[2][0], args, kwargs, st, fi, depth, n, rec)
+            if a is not None and a[0] == "fn" and a[1] in ("functools.partial", "partial") and a[2]:
+                # partial(f, *bound, **kw)(*args, **more) IS f(*bound, *args, **kw, **more)
+                kw = dict(a[3])
+                kw.update(kwargs)
+                return self._call_value(a[2][0], list(a[2][1:]) + list(args), kw, st, fi, depth, n, rec)
+            if a is not None and a[0] == "fn" and a[1] == "operator.itemgetter" and len(a[2]) == 1 and len(args) == 1 and not kwargs:
+                return self._dispatch_call(n, "operator.getitem", [args[0], a[2][0]], {}, st, fi, depth, rec)
             s = fv.sym_name()
             if s is not None and self.param_classes.get(s) in SIGNAL_CLASSES:
                 return Form.atom(("meth", fv, "__call__", tuple(map(as_value, args)), tuple(sorted((k, as_value(v)) for k, v in kwargs.items()))))
@@ -2185,6 +2386,26 @@ class Interp:
                 if attr == "values":
                     return TupleV([v for _, v in base.items], "list")
                 return TupleV([TupleV([k, v]) for k, v in base.items], "list")
+            if attr == "update" and len(args) <= 1:
+                src = args[0] if args else None
+                pairs = None
+                if src is None:
+                    pairs = []
+                elif isinstance(src, DictV):
+                    pairs = list(src.items)
+                elif isinstance(src, TupleV) and all(isinstance(p_, TupleV) and len(p_.items) == 2 for p_ in src.items):
+                    pairs = [(p_.items[0], p_.items[1]) for p_ in src.items]
+                if pairs is not None and "**" not in kwargs:
+                    for k_, v_ in pairs + [(Const(k_), v_) for k_, v_ in kwargs.items()]:
+                        base.set(k_, v_)
+                        self.store_log.append((fi, n, ("idx", base, k_, None), v_, list(st.conds), depth))
+                    return NONE
+            if attr == "setdefault" and 1 <= len(args) <= 2 and isinstance(args[0], Const):
+                cur = base.get(args[0])
+                if cur is None:
+                    cur = args[1] if len(args) == 2 else NONE
+                    base.set(args[0], cur)
+                return cur
         if isinstance(base, Const) and isinstance(base.v, bool) and attr in ("any", "all") and not args:
             return base    # a decided scalar comparison: (x < 0).any() is x < 0
         if isinstance(base, Const) and isinstance(base.v, str):
@@ -2261,6 +2482,20 @@ class Interp:
         return Form.atom(("meth", as_value(base), attr, tuple(map(as_value, args)), tuple(sorted((k, as_value(v)) for k, v in kwargs.items()))))
 
     def _builtin(self, name, args, kwargs, st, fi, depth, n):
+        if name == "dict" and len(args) <= 1 and "**" not in kwargs:
+            pairs = []
+            if args:
+                if isinstance(args[0], DictV):
+                    pairs = list(args[0].items)
+                elif isinstance(args[0], TupleV) and all(isinstance(p_, TupleV) and len(p_.items) == 2 for p_ in args[0].items):
+                    pairs = [(p_.items[0], p_.items[1]) for p_ in args[0].items]
+                else:
+                    pairs = None
+            if pairs is not None:
+                d_ = DictV(list(pairs))
+                for k_, v_ in kwargs.items():
+                    d_.set(Const(k_), v_)
+                return d_
         if name == "len" and len(args) == 1:
             v = args[0]
             if isinstance(v, TupleV):
@@ -2308,10 +2543,32 @@ class Interp:
                 a0 = args[0].single_atom()
                 if a0 is not None and a0[0] == "fn" and a0[1] == "listcomp":
                     return args[0]
+        if name == "map" and len(args) == 2 and not kwargs and isinstance(args[1], TupleV) and len(args[1].items) <= 32:
+            # map over a literal sequence: element by element
+            return TupleV([self._call_value(args[0], [item], {}, st, fi, depth, n, CallRec(n, None, [], {}, [], fi, depth, st.facts)) for item in args[1].items], "list")
         if name == "map" and len(args) == 2 and isinstance(args[0], FuncV) and not kwargs:
             # map(f, xs) is the comprehension [f(x) for x in xs]
             body = self._call_value(args[0], [iter_element(args[1])], {}, st, fi, depth, n, CallRec(n, None, [], {}, [], fi, depth, st.facts))
             return mk_fn("listcomp", [as_value(body), as_value(args[1])])
+        if name in ("zip", "enumerate", "reversed") and args and not kwargs:
+            seqs = []
+            for a in args:
+                if isinstance(a, TupleV):
+                    seqs.append(list(a.items))
+                elif isinstance(a, Const) and isinstance(a.v, str):
+                    seqs.append([Const(ch) for ch in a.v])
+                elif isinstance(a, VecV):
+                    seqs.append(list(a.items))
+                else:
+                    seqs = None
+                    break
+            if seqs is not None and all(len(q) <= 64 for q in seqs):
+                if name == "zip":
+                    return TupleV([TupleV(list(t), "tuple") for t in zip(*seqs)], "list")
+                if name == "enumerate" and len(seqs) == 1:
+                    return TupleV([TupleV([Form.num(i), x], "tuple") for i, x in enumerate(seqs[0])], "list")
+                if name == "reversed" and len(seqs) == 1:
+                    return TupleV(list(reversed(seqs[0])), "list")
         if name == "zip":
             return mk_fn("zip", [as_value(a) for a in args])
         if name == "range":
@@ -2345,7 +2602,7 @@ def _full_slice(i):
     return isinstance(i, SliceV) and all(isinstance(x, Const) and x.v is None for x in (i.lo, i.hi, i.step))
 
 
-def _literal_like(g):
+def _literal_like(g, resolve=None):
     """module-level value that is safe to evaluate symbolically: literals, containers of them, names, attribute paths,
     arithmetic, lambdas; no calls except pure numeric helpers"""
     for n in ast.walk(g):
@@ -2353,7 +2610,9 @@ def _literal_like(g):
             f = n.func
             nm = f.attr if isinstance(f, ast.Attribute) else (f.id if isinstance(f, ast.Name) else "")
             if nm not in ("log", "log2", "log10", "sqrt", "exp", "float", "int", "tuple", "frozenset", "dict", "list", "set", "compile"):
-                return False
+                dotted = resolve(f) if resolve is not None else None
+                if dotted not in ("functools.partial", "operator.itemgetter"):       # module-level aliases: _pow10 = partial(operator.pow, 10)
+                    return False
         elif isinstance(n, (ast.Await, ast.Yield, ast.YieldFrom, ast.NamedExpr, ast.ListComp, ast.DictComp, ast.SetComp, ast.GeneratorExp)):
             return False
     return True
@@ -2470,8 +2729,8 @@ _ELEMENTWISE = {"sqrt", "abs", "absolute", "exp", "log", "log10", "log2", "cos",
                 "square", "negative", "array", "asarray", "float64"}
 _BUILTIN_TYPES = {"int", "float", "complex", "str", "bool", "list", "tuple", "dict", "set", "bytes", "object", "type",
                   "Exception", "ValueError", "TypeError"}
-_BUILTINS = {"len", "int", "isinstance", "type", "getattr", "super", "str", "min", "max", "list", "tuple", "zip", "range",
-             "abs", "round", "print", "callable", "float", "sum", "map", "dir", "setattr", "delattr", "hasattr", "id", "slice", "next"}
+_BUILTINS = {"dict", "len", "int", "isinstance", "type", "getattr", "super", "str", "min", "max", "list", "tuple", "zip", "range",
+             "abs", "round", "print", "callable", "float", "sum", "map", "dir", "setattr", "delattr", "hasattr", "id", "slice", "next", "enumerate", "reversed"}
 _INLINE_METHODS = {"len", "fs", "sps", "dt", "w", "t", "abs", "power", "type", "copy", "__getitem__", "__call__", "__mul__",
                    "__rmul__", "__add__", "__radd__", "__sub__", "__rsub__", "ones", "zeros", "__len__"}
 
